@@ -148,8 +148,17 @@ class Oracle:
         return v
 
 
+_CLASS_VALUES: Dict[Tuple[str, str], Any] = {}      # class-level attribute values of the world being interpreted (one process)
+
+
+def reset_world() -> None:
+    """A new world (process): class-level attributes have the values their class bodies give them."""
+    _CLASS_VALUES.clear()
+
+
 def enumerate_outcomes(run) -> List[Any]:
-    """Run `run(oracle)` for every resolution of the TOP branches; returns the list of outcomes."""
+    """Run `run(oracle)` for every resolution of the TOP branches; returns the list of outcomes.  Every resolution is a world of
+    its own: state kept on classes does not leak from one to the next."""
     oracle = Oracle()
     outcomes = []
     pending: List[List[bool]] = [[]]
@@ -157,6 +166,7 @@ def enumerate_outcomes(run) -> List[Any]:
     while pending:
         prefix = pending.pop()
         oracle.start(prefix)
+        reset_world()
         try:
             res = ('value', run(oracle))
         except ARaise as ex:
@@ -261,6 +271,15 @@ class Interp:
                 return True
         return False
 
+    def _class_value(self, owner, attr: str, default: ast.AST):
+        """The value of a class-level attribute: evaluated once (when the class body runs) and shared by every instance that
+        does not shadow it - a mutable one is one object for the whole process."""
+        cache = _CLASS_VALUES
+        key = (owner.qualname, attr)
+        if key not in cache:
+            cache[key] = self.eval(default, {'__module__': owner.module, '__unit__': None, '__closure__': None})
+        return cache[key]
+
     # ------------------------------------------------------------------ calls
     def call_unit(self, unit: FuncUnit, args: List[Any], kwargs: Dict[str, Any], self_obj=None, closure=None):
         self.tick()
@@ -339,6 +358,8 @@ class Interp:
             return self.construct(f, args, kwargs)
         if isinstance(f, AExt):
             return self.call_ext(f, args, kwargs)
+        if isinstance(f, AObj) and f.cls == ('ext', 'functools.partial'):
+            return self.call(f.attrs['func'], list(f.attrs['args']) + list(args), {**f.attrs['keywords'], **kwargs}, node)
         raise AnalysisError(f'abstract interpretation: call of {f!r} ({unparse(node) if node is not None else ""})')
 
     def construct(self, c: AClass, args, kwargs):
@@ -468,8 +489,29 @@ class Interp:
         last = name.split('.')[-1]
         if name in self.ext_stubs:
             return self.ext_stubs[name](args, kwargs)
+        if name == 'itertools.count':
+            start = args[0] if args else kwargs.get('start', 0)
+            step = args[1] if len(args) > 1 else kwargs.get('step', 1)
+            if isinstance(start, int) and isinstance(step, int) and step > 0:
+                return AObj(('ext', 'itertools.count'), {'start': start, 'step': step}, tag='itertools.count')
+            return TOP
         if name == 'builtins.isinstance':
             return self.isinstance_(args[0], args[1])
+        if name == 'builtins.issubclass' and len(args) == 2:
+            sub = args[0]
+            if isinstance(sub, AExt) and sub.recv is None and sub.name.split('.')[-1][:1].isupper():
+                sub = AClass(('ext', sub.name))
+            if not isinstance(sub, AClass):
+                return TOP
+            mine = self.class_ancestors(sub.ref)
+            for c in (args[1] if isinstance(args[1], tuple) else (args[1],)):
+                if isinstance(c, AExt) and c.recv is None and c.name.split('.')[-1][:1].isupper():
+                    c = AClass(('ext', c.name))
+                if not isinstance(c, AClass):
+                    return TOP
+                if (c.ref.name if isinstance(c.ref, ClassInfo) else c.ref[1].split('.')[-1]) in mine:
+                    return True
+            return False
         if name == 'builtins.bool':
             return self.truth(args[0]) if args else False
         if name == 'builtins.any':
@@ -504,6 +546,14 @@ class Interp:
             if src != dst:
                 walk([src])
             return AOneShot(lambda: paths)
+        if name == 'networkx.descendants_at_distance' and len(args) >= 3 and isinstance(args[0], AObj) \
+                and isinstance(args[0].attrs.get('edges'), dict) and isinstance(args[2], int):
+            level = {args[1]}
+            seen_ = {args[1]}
+            for _ in range(args[2]):
+                level = {v for (u, v) in args[0].attrs['edges'] if u in level and v not in seen_}
+                seen_ |= level
+            return set(level)
         if name in ('networkx.descendants', 'networkx.ancestors', 'networkx.has_path') and args and isinstance(args[0], AObj) \
                 and isinstance(args[0].attrs.get('edges'), dict):
             edges = list(args[0].attrs['edges'])
@@ -569,6 +619,8 @@ class Interp:
             if isinstance(target, AFunc):
                 return AFunc(target.unit, target.self_obj, target.closure, tuple(target.pre_args) + tuple(args[1:]),
                              {**target.pre_kwargs, **kwargs})
+            if isinstance(target, (AExt, AClass)) or (isinstance(target, AObj) and target.cls == ('ext', 'functools.partial')):
+                return AObj(('ext', 'functools.partial'), {'func': target, 'args': tuple(args[1:]), 'keywords': dict(kwargs)}, tag='partial')
             return TOP
         if name == 'logging.getLogger':
             return AExt('logging.Logger#')
@@ -584,10 +636,14 @@ class Interp:
                 return [u for (u, v) in edges if v == args[0]]
             if last == 'successors':
                 return [v for (u, v) in edges if u == args[0]]
-            if last == 'in_edges':
-                return [(u, v) for (u, v) in edges if v == args[0]]
-            if last == 'out_edges':
-                return [(u, v) for (u, v) in edges if u == args[0]]
+            if last in ('in_edges', 'out_edges'):
+                sel = [(u, v) for (u, v) in edges if (v if last == 'in_edges' else u) == args[0]]
+                data = kwargs.get('data', args[1] if len(args) > 1 else False)
+                if data is True:
+                    return [(u, v, edges[(u, v)]) for (u, v) in sel]
+                if data is False:
+                    return sel
+                raise AnalysisError(f'abstract interpretation: {last}(data={data!r}) not modelled')
             if last == 'has_node':
                 return args[0] in recv.attrs.get('nodes', {})
             if last == 'has_edge':
@@ -751,7 +807,8 @@ class Interp:
         for t in (h.type.elts if isinstance(h.type, ast.Tuple) else [h.type]):
             nm = (dotted(t) or '').split('.')[-1]
             import builtins
-            if env is not None and isinstance(t, ast.Name) and not isinstance(getattr(builtins, nm, None), type):
+            if env is not None and (not isinstance(t, ast.Name) or not isinstance(getattr(builtins, nm, None), type)) \
+                    and not (isinstance(t, ast.Attribute) and isinstance(t.value, ast.Name) and t.value.id in ('asyncio', 'builtins', 'concurrent')):
                 # a name that is not a built-in exception class: a constant naming the classes, an imported class
                 try:
                     v = self.eval(t, env)
@@ -831,7 +888,13 @@ class Interp:
                 self.exec_block(st.orelse, env)
             return
         if isinstance(st, ast.For):
-            for item in self._to_list(self.eval(st.iter, env)):
+            it_val = self.eval(st.iter, env)
+            if isinstance(it_val, AObj) and it_val.tag == 'itertools.count':
+                # an endless counter: the loop ends by break / return / raise (bounded here)
+                it_val = list(range(it_val.attrs['start'], it_val.attrs['start'] + 64 * it_val.attrs['step'], it_val.attrs['step'])) + [_Endless]
+            for item in self._to_list(it_val):
+                if item is _Endless:
+                    raise AnalysisError('abstract interpretation: a loop over itertools.count() did not end within 64 iterations')
                 self.assign(st.target, item, env)
                 try:
                     self.exec_block(st.body, env)
@@ -1068,7 +1131,7 @@ class Interp:
                                 obj.attrs[real] = self.call(self.eval(kw.value, menv), [], {}, kw.value)
                                 return obj.attrs[real]
                         raise AnalysisError(f'abstract interpretation: field {attr} of {obj!r} not initialised')
-                    return self.eval(default, {'__module__': owner.module, '__unit__': None, '__closure__': None})
+                    return self._class_value(owner, attr, default)
                 # methods of external base classes (UserDict)
                 for ext in self.p.ext_bases(obj.cls):
                     if ext.split('.')[-1] == 'UserDict' and 'data' in obj.attrs:
@@ -1095,8 +1158,7 @@ class Interp:
             if isinstance(obj.ref, ClassInfo):
                 f = self.p.lookup_field(obj.ref, attr)
                 if f is not None and f[2] is not None:
-                    v = self.eval(f[2], {'__module__': f[0].module, '__unit__': None, '__closure__': None})
-                    return v
+                    return self._class_value(f[0], attr, f[2])
                 m = self.p.lookup_method(obj.ref, attr)
                 if m is not None:
                     return AFunc(m)
@@ -1357,6 +1419,15 @@ class Interp:
             else:
                 r = a == b
             return r if isinstance(op, ast.Eq) else not r
+        if isinstance(op, (ast.Lt, ast.LtE, ast.Gt, ast.GtE)):
+            if a is TOP or b is TOP:
+                return self.oracle.choose()
+            num = lambda x: isinstance(x, (int, float)) and not isinstance(x, bool)      # noqa: E731
+            if (num(a) and num(b)) or (isinstance(a, str) and isinstance(b, str)):
+                return {ast.Lt: a < b, ast.LtE: a <= b, ast.Gt: a > b, ast.GtE: a >= b}[type(op)]
+            if a is None or b is None:
+                raise ARaise('TypeError (ordering comparison with None)')
+            raise AnalysisError(f'abstract interpretation: ordering of {a!r} and {b!r}')
         raise AnalysisError(f'abstract interpretation: unsupported comparison {type(op).__name__}')
 
 
@@ -1374,6 +1445,13 @@ def _is_generator(fn: ast.AST) -> bool:
             continue
         todo.extend(ast.iter_child_nodes(n))
     return False
+
+
+class _EndlessType:
+    pass
+
+
+_Endless = _EndlessType()
 
 
 class _Continue(Exception):
@@ -1429,6 +1507,7 @@ def hidden_dict_api(p: Program, ci: ClassInfo) -> Dict[str, FuncUnit]:
     _HD_KEEP.append(ci)
 
     def fresh() -> AObj:
+        reset_world()
         obj = AObj(ci, {'data': {}})
         init = p.lookup_method(ci, '__init__')
         if init is not None:
